@@ -816,6 +816,10 @@ def c_arith(it, recv, a):
 
 
 BASE_CON = {"Constraint::arithmetic": c_arith, ".into": lambda it, recv, a: recv,
+            # accessors of the Constraint value (constraint.rs units prove them for the real type)
+            ".witness": lambda it, recv, a: recv.fields[{"WiredWitness::A": "a", "WiredWitness::B": "b", "WiredWitness::C": "c", "WiredWitness::D": "d"}[canon(a[0])]] if isinstance(recv, VStruct) else NotImplemented,
+            ".coeff": lambda it, recv, a: recv.fields[{"Selector::Multiplication": "q_m", "Selector::Left": "q_l", "Selector::Right": "q_r", "Selector::Output": "q_o", "Selector::Fourth": "q_f", "Selector::Constant": "q_c", "Selector::PublicInput": "pi"}[canon(a[0])]] if isinstance(recv, VStruct) and canon(a[0]) in ("Selector::Multiplication", "Selector::Left", "Selector::Right", "Selector::Output", "Selector::Fourth", "Selector::Constant", "Selector::PublicInput") else NotImplemented,
+            ".has_public_input": lambda it, recv, a: VOpaque("has_public_input", [recv.fields["pi"]]) if isinstance(recv, VStruct) else NotImplemented,
             "self.append_evaluated_output": lambda it, recv, a: (ev(it, "append_evaluated_output", a[0]), VOpaque("Some", [fresh_w(it)]))[1]}
 
 
